@@ -163,17 +163,111 @@ def check(ctx):
 RENDERER_FILES = ("naunet/templateloader.py", "naunet/patches.py")
 
 
-def stateless_renderer(ctx, pkg, rule):
-    """What a rendering writes is a function of the network handed to THAT call: outside __init__ no method of TemplateLoader or of a
-    patch class stores or mutates an attribute of the renderer (a memo of prepared contents, of species positions, of the last network).
-    Such state makes the second rendering through the same loader depend on the first."""
-    from .c14 import _self_writes
-    n = 0
-    for ci in sorted(pkg.classes.values(), key=lambda c: c.name):
-        if ci.file not in RENDERER_FILES or "." in ci.name:
+CONSTRUCTION = ("__init__", "__post_init__", "__new__", "__init_subclass__", "__set_name__")
+
+
+def _renderer_classes(pkg):
+    """(renderers, helpers): the top-level classes of the renderer modules, split by role.  A RENDERER is a class that defines or
+    inherits a rendering entry point (a method whose name says render) or that other modules of the package refer to (they build it
+    and render through it); everything else defined there -- accumulators, tables, record types -- is a HELPER of the renderers."""
+    cands = [ci for ci in sorted(pkg.classes.values(), key=lambda c: c.name) if ci.file in RENDERER_FILES and "." not in ci.name]
+    outside = set()
+    for f, mod in pkg.modules.items():
+        if f in RENDERER_FILES:
             continue
+        for n in ast.walk(mod):
+            if isinstance(n, ast.Name):
+                outside.add(n.id)
+            elif isinstance(n, ast.Attribute):
+                outside.add(n.attr)
+            elif isinstance(n, ast.alias):
+                outside.add(n.name.split(".")[-1])
+    renderers, helpers = [], []
+    for ci in cands:
+        meths = set()
+        for c in pkg.mro(ci.name):
+            k = pkg.classes.get(c)
+            if k is not None and k.file in RENDERER_FILES:
+                meths |= {m for m, fn in k.methods.items() if isinstance(fn, ast.FunctionDef)}
+        has_methods = any(m not in CONSTRUCTION for m in meths)
+        if any("render" in m.lower() for m in meths) or (ci.name in outside and has_methods):
+            renderers.append(ci)
+        else:
+            helpers.append(ci)
+    return renderers, helpers
+
+
+def _kept_instances(pkg, names):
+    """{helper class name: (file, line, where)} for helper instances that outlive one rendering call: built at module or class
+    level, or stored into an attribute of an object (`self.x = Helper()`, also inside a display / call argument of such a store).
+    An instance bound to a local of the call that builds it is dropped with the call."""
+    kept = {}
+    for f in RENDERER_FILES:
+        mod = pkg.modules.get(f)
+        if mod is None:
+            continue
+
+        def builds(node):
+            return [c.func.id for c in ast.walk(node) if isinstance(c, ast.Call) and isinstance(c.func, ast.Name) and c.func.id in names]
+
+        def scan(stmts, in_func):
+            for st in stmts:
+                if isinstance(st, (ast.FunctionDef, ast.AsyncFunctionDef)):
+                    # defaults are evaluated once, at definition time
+                    for d in st.args.defaults + [d for d in st.args.kw_defaults if d is not None]:
+                        for h in builds(d):
+                            kept.setdefault(h, (f, st.lineno, f"a default argument of `{st.name}`"))
+                    scan(st.body, True)
+                    continue
+                if isinstance(st, ast.ClassDef):
+                    scan(st.body, False)
+                    continue
+                if not in_func:
+                    for h in builds(st):
+                        kept.setdefault(h, (f, st.lineno, "module / class level"))
+                    continue
+                for n in ast.walk(st):
+                    tg = n.targets if isinstance(n, ast.Assign) else [n.target] if isinstance(n, (ast.AugAssign, ast.AnnAssign)) and n.value is not None else []
+                    if any(isinstance(_base(e), ast.Attribute) for t in tg for e in (t.elts if isinstance(t, (ast.Tuple, ast.List)) else [t])):
+                        for h in builds(n.value):
+                            kept.setdefault(h, (f, n.lineno, f"`{ast.unparse(tg[0])}`"))
+                    if isinstance(n, ast.Call) and isinstance(n.func, ast.Attribute) and n.func.attr in MUTATORS | {"add", "append"} and isinstance(n.func.value, ast.Attribute):
+                        for a in n.args:
+                            for h in builds(a):
+                                kept.setdefault(h, (f, n.lineno, f"`{ast.unparse(n.func.value)}`"))
+        scan(mod.body, False)
+        # a module-level name re-bound from inside a function (`global _TABLE; _TABLE = Helper()`)
+        for fn in ast.walk(mod):
+            if isinstance(fn, (ast.FunctionDef, ast.AsyncFunctionDef)):
+                gl = {x for n in ast.walk(fn) if isinstance(n, ast.Global) for x in n.names}
+                for n in ast.walk(fn):
+                    if gl and isinstance(n, ast.Assign) and any(isinstance(t, ast.Name) and t.id in gl for t in n.targets):
+                        for c in ast.walk(n.value):
+                            if isinstance(c, ast.Call) and isinstance(c.func, ast.Name) and c.func.id in names:
+                                kept.setdefault(c.func.id, (f, n.lineno, "a module global"))
+    return kept
+
+
+def _base(e):
+    while isinstance(e, ast.Subscript):
+        e = e.value
+    return e
+
+
+def stateless_renderer(ctx, pkg, rule):
+    """What a rendering writes is a function of the network handed to THAT call: outside construction no method of a RENDERER
+    (TemplateLoader, the patch classes: the classes of the renderer modules with a rendering entry point, or that other modules
+    build) stores or mutates an attribute of the renderer (a memo of prepared contents, of species positions, of the last network).
+    Such state makes the second rendering through the same loader depend on the first.  A HELPER class of those modules (an
+    accumulator, a table, a record type) may keep state in its instances -- that is what it is for -- as long as no instance
+    outlives the rendering call that built it: an instance kept at module / class level or in an attribute of another object
+    carries what one rendering put into it over to the next."""
+    from .c14 import _self_writes
+    renderers, helpers = _renderer_classes(pkg)
+    n = 0
+    for ci in renderers:
         for mname, fn in sorted(ci.methods.items()):
-            if mname == "__init__" or not isinstance(fn, ast.FunctionDef):
+            if mname in CONSTRUCTION or not isinstance(fn, ast.FunctionDef):
                 continue
             n += 1
             w = _self_writes(fn)
@@ -186,6 +280,28 @@ def stateless_renderer(ctx, pkg, rule):
             else:
                 ctx.ok(rule, key, (ci.file, fn.lineno), "writes no attribute of the renderer")
     ctx.floor(rule, "renderer methods", n, 6)
+    # helper classes whose methods change their own instance: harmless while every instance lives inside one rendering call
+    stateful = {}
+    for ci in helpers:
+        for mname, fn in sorted(ci.methods.items()):
+            if mname in CONSTRUCTION or not isinstance(fn, ast.FunctionDef):
+                continue
+            w = _self_writes(fn)
+            if w:
+                stateful.setdefault(ci.name, []).append((mname, sorted(w), min(w.values())))
+    kept = _kept_instances(pkg, set(stateful)) if stateful else {}
+    for ci in helpers:
+        if ci.name not in stateful:
+            continue
+        key = f"{ci.name}:instances live inside one rendering"
+        if ci.name in kept:
+            f, line, where = kept[ci.name]
+            m, attrs, _ = stateful[ci.name][0]
+            ctx.bad(rule, key, (f, line), f"an instance of the helper `{ci.name}` is kept in {where} and `{ci.name}.{m}` changes it (self.{attrs[0]}): what one rendering accumulated in it is still "
+                    "there for the next rendering through the same renderer", expected="the helper is built inside the rendering call that uses it (a local), or is never changed after construction",
+                    found=f"{where}; writers: " + ", ".join(f"{m_}({', '.join(a_)})" for m_, a_, _ in stateful[ci.name]))
+        else:
+            ctx.ok(rule, key, (ci.file, ci.node.lineno), "a helper whose instances are locals of the call that builds them: nothing survives the call")
 
 
 # ------------------------------------------------------------------ R6  who may READ the process-global tables
@@ -1049,4 +1165,28 @@ MUTANTS += [
     {"name": "initialize-after-guard-clause-only-when-empty", "file": NF, "old": _ADD_INIT,
      "new": "        from_string = not isinstance(reaction, Reaction)\n        if from_string and not rclass:\n            raise RuntimeError(f\"Unknown format: {format}\")\n\n"
             "        if from_string and not self.reaction_list:\n            rclass.initialize()", "rules": ["R4"]},
+]
+
+# ---- R7: helper classes of the renderer modules (accumulators, tables, record types) -------------------------------------------
+TL = "naunet/templateloader.py"
+_TL_CLS = "class TemplateLoader:\n"
+_TALLY = ("class _Tally:\n    \"\"\"counts what a rendering emits\"\"\"\n\n    def __init__(self) -> None:\n        self.n = 0\n        self.names = []\n\n"
+          "    def note(self, name: str) -> None:\n        self.n += 1\n        self.names.append(name)\n\n\n")
+_RENDER_HEAD = "        templates = templates or self.templates\n        solver = self._solver\n"
+BENIGN += [
+    {"name": "helper-accumulator-local-to-render", "edits": [
+        {"file": TL, "old": _TL_CLS, "new": _TALLY + _TL_CLS},
+        {"file": TL, "old": _RENDER_HEAD, "new": _RENDER_HEAD + "        tally = _Tally()\n        tally.note(proj_name)\n"}]},
+    {"name": "record-type-with-derived-property", "file": TL, "old": _TL_CLS,
+     "new": "from typing import NamedTuple\n\n\nclass _Row(NamedTuple):\n    row: int\n    col: int\n\n    def flat(self, n: int) -> int:\n        return self.row * n + self.col\n\n\n" + _TL_CLS},
+]
+MUTANTS += [
+    {"name": "helper-accumulator-kept-in-the-loader", "edits": [
+        {"file": TL, "old": _TL_CLS, "new": _TALLY + _TL_CLS},
+        {"file": TL, "old": "        self._solver = solver\n", "new": "        self._solver = solver\n        self._tally = _Tally()\n"},
+        {"file": TL, "old": _RENDER_HEAD, "new": _RENDER_HEAD + "        self._tally.note(proj_name)\n"}], "rules": ["R7"]},
+    {"name": "helper-accumulator-at-module-level", "edits": [
+        {"file": TL, "old": _TL_CLS, "new": _TALLY + "_TALLY = _Tally()\n\n\n" + _TL_CLS},
+        {"file": TL, "old": _RENDER_HEAD, "new": _RENDER_HEAD + "        _TALLY.note(proj_name)\n"}], "rules": ["R7"]},
+    {"name": "loader-remembers-last-network", "file": TL, "old": _RENDER_HEAD, "new": _RENDER_HEAD + "        self._last_network = network\n", "rules": ["R7"]},
 ]
